@@ -117,6 +117,10 @@ class Exe:
                     line += " disc"
             elif kind == "flush":
                 line = "xflush p%d" % r
+            elif kind == "set":
+                # the option changes while octets may be held (seg = "mtu,align")
+                cmds.append(("opt p%d set mtu %s" % (r, seg), ("op", i)))
+                continue
             else:
                 line = "xrel p%d" % r
             line += " budget=%d" % (sofar[r] + BUDGET_SLACK)
@@ -198,6 +202,8 @@ def parse_output(exes, base, stdout):
                     cur.events.append({"e": "In", "r": r, "b": list(data), "d": int(bool(disc))})
                 elif kind == "rel":
                     cur.events.append({"e": "Rel", "r": r})
+                elif kind == "set":
+                    cur.events.append({"e": "Set", "r": r, "mtu": int(seg.split(",")[0]), "align": int(seg.split(",")[1])})
             continue
         if cur is None or ci < 0:
             continue
@@ -239,6 +245,9 @@ def parse_output(exes, base, stdout):
                     if toks[1] != "0":
                         raise vlib.ToolError("pipe_driver: xrel failed: " + line)
                     cur.events.append({"e": "Released", "r": r})
+                elif kind == "set":
+                    if toks[1] != "0":
+                        raise vlib.ToolError("pipe_driver: option refused: %s (%s)" % (line, cur.cmds[ci][0][:60]))
                 elif toks[1] != "0":
                     raise vlib.ToolError("pipe_driver: xin failed: %s (%s)" % (line, cur.cmds[ci][0][:60]))
             elif toks[1] != "0":
@@ -365,6 +374,8 @@ def random_cut(rng, data, marks, sizes):
         ln = rng.choice(sizes)
         if ln == 0 and not need and not rng.chance(1, 3):
             ln = rng.choice([x for x in sizes if x > 0])
+        if len(out) > 3000:
+            ln = MAXBUF           # a long stream in tiny pieces: the rest goes in large ones
         ln = min(ln, nxt - pos, MAXBUF)
         out.append((bytes(data[pos:pos + ln]), need))
         if need:
@@ -526,6 +537,14 @@ def enumerated(quick):
                                ops, "enumerated chunk_stream total=%d" % n))
             if quick and mtu > 100:
                 break
+    # the option changes while octets are held, then the pipe is released / fed again
+    for (m1, a1), held, (m2, a2), more in [((100, 1), 57, (10, 4), None), ((100, 1), 57, (10, 4), 1), ((7, 3), 5, (3, 1), None),
+                                           ((9, 8), 7, (2, 1), None), ((5, 2), 1, (100, 1), 3), ((188, 47), 100, (7, 3), 0)]:
+        ops = [[1, "in", bytes(filler(i) for i in range(held)), None, False], [1, "set", b"", "%d,%d" % (m2, a2), False]]
+        if more is not None:
+            ops.append([1, "in", bytes(filler(held + i) for i in range(more)), None, False])
+        ops.append([1, "rel", b"", None, False])
+        out.append(Exe(conf_of("chunk", "chunk_stream", mtu=m1, align=a1), ops, "enumerated chunk_stream set_mtu while held"))
     for mtu in (7, 188, 1316):
         for sizes in ([mtu], [mtu + 1], [mtu - 1, 1], [mtu - 1, 2], [1, mtu], [0], [mtu, mtu, 0, 1], [1] * 9,
                       [3, 3, 3], [mtu // 2, mtu // 2, mtu // 2]):
@@ -625,6 +644,10 @@ def random_exe(rng, quick):
             data = bytes(filler(o + i) for i in range(ln))
             o += ln
             ops.append([1, "in", data, rand_seg(rng, ln) if rng.chance(1, 3) else None, False])
+            if rng.chance(1, 5):
+                # the option changes in the middle of the stream, possibly while octets are held
+                m2, a2 = rng.choice([(5, 2), (7, 3), (3, 1), (4, 3), (10, 4), (9, 8), (2, 1), (100, 1), (188, 47)])
+                ops.append([1, "set", b"", "%d,%d" % (m2, a2), False])
             if len(ops) > 200:
                 break
         return Exe(conf_of("chunk", "chunk_stream", mtu=mtu, align=align, default=bool(dflt)), ops, "random")
